@@ -5,7 +5,8 @@ translate:      harness/translate_entity.py -> lean/OdfModel/Generated/ParseSite
                 (AST inventory of every XML-parser construction in odf/*.py and the shipped scripts,
                 import origin of the callee, enclosing function, members flowing in, entry-point reach)
 proof:          lean/OdfModel/Props/C13.lean about lean/OdfModel/Entity.lean
-                (all_defused, load_parametric, readOrder_sound, refuses_partial, ...)
+                (all_defused, load_parametric, readOrder_sound, moin_guarded, refuses_explicit_partial,
+                refuses_external_subset_partial, C13_full_partial, ...)
 correspondence: (a) which members an entry point parses: model `order` (drv_entity) vs the real code probed
                 with a NOT WELL-FORMED member (a parse is the only way to notice);
                 (b) outcome class of every cell of the fault matrix: model `read` vs real call
@@ -623,7 +624,7 @@ def run(chk, replay=None):
     if not ok:
         chk.lake(['build', 'drv_entity'])
     chk.assumptions.append('C13: behaviour of the two parser kinds (defusedxml raises on an entity declaration / external '
-                           'reference; the plain xml.* parsers expand) is an explicit hypothesis of refuses_partial '
+                           'reference; the plain xml.* parsers expand) is an explicit hypothesis of the *_partial theorems '
                            '(structure ParserBehaviour), validated by the fault matrix on every run, not proved')
     chk.assumptions.append('C13: the parse-site inventory is syntactic (AST, import origin, name-based call graph); '
                            'parsers reached through dynamic imports or foreign objects would be seen only by the fault matrix')
